@@ -98,7 +98,7 @@ Definition zeval := eval Z.sub Z.mul Z.add.
 Definition weval (w : Z) := eval (wsub w) (wmul w) (wadd w).
 
 Lemma bnd_nonneg : forall B e, 0 <= B -> 0 <= bnd B e.
-Proof. induction e; simpl; intros; try lia. specialize (IHe1 H). specialize (IHe2 H). nia. Qed.
+Proof. intros B e HB. induction e; simpl; lia. Qed.
 
 Lemma zeval_bound : forall B rho, 0 <= B -> (forall i, Z.abs (rho i) <= B) ->
   forall e, Z.abs (zeval rho e) <= bnd B e.
